@@ -546,7 +546,12 @@ def _convert_parameter(parameter: SignatureParameter, parent: Module | Class) ->
         None if parameter.annotation is _empty else _convert_object_to_annotation(parameter.annotation, parent=parent)
     )
     kind = _kind_map[parameter.kind]
-    if parameter.default is _empty:
+    if kind is ParameterKind.var_positional:
+        # Same pseudo-defaults as static analysis: variadic parameters are never required.
+        default = "()"
+    elif kind is ParameterKind.var_keyword:
+        default = "{}"
+    elif parameter.default is _empty:
         default = None
     elif hasattr(parameter.default, "__name__"):
         # Avoid `repr` containing chevrons and memory addresses.
